@@ -75,6 +75,16 @@ def run(ctx):
     rc2, mlog = vlib.sh([drv, out], timeout=2400)
     m = re.search(r"CASES (\d+) MISMATCHES (\d+)", mlog)
     mism = int(m.group(2)) if m else -1
+    compared = int(m.group(1)) if m else -1
+    mc = re.search(r"CALLS-COMPARED (\d+)", mlog)
+    calls_compared = int(mc.group(1)) if mc else -1
+    ctx.min_evaluations = 30000 if ctx.tier == "thorough" else 800
+    if not ctx.replay and (rc2 != 0 or compared != summ.get("lines", -2) or calls_compared != summ.get("calls", -2)):
+        # zero-comparison guard: the driver must have read, to the END marker, exactly the buses the harness wrote and
+        # compared exactly the calls it made
+        ctx.violation("c17-driver-count", "the model driver read %d buses / compared %d calls (rc %d), the harness wrote %s buses / made %s calls: %s"
+                      % (compared, calls_compared, rc2, summ.get("lines"), summ.get("calls"), mlog[-300:]),
+                      {"driver_output": mlog[-2000:]}, found_input=False)
 
     # property-level failures on the implementation's own numbers (a concrete failing bus each,
     # the one with the fewest messages per kind)
